@@ -351,10 +351,29 @@ pub fn one_sided(rng: &mut Rng) -> T {
     )
 }
 
+/// one player decides twice in a row (own reach is a product of two own probabilities), then a
+/// blind opponent answers: one infoset across all four nodes
+pub fn double_decision(rng: &mut Rng) -> T {
+    let first = rng.chance(0.5);
+    let p2 = |rng: &mut Rng, bonus: f64| {
+        T::Player(
+            !first,
+            0,
+            vec![(0, T::Term(bonus + rng.unit())), (1, T::Term(bonus - rng.unit()))],
+        )
+    };
+    let second = |rng: &mut Rng, label: u32, bonus: f64| {
+        T::Player(first, label, vec![(0, p2(rng, bonus)), (1, p2(rng, bonus))])
+    };
+    let hi = 1.0 + rng.unit();
+    T::Player(first, 0, vec![(0, second(rng, 1, hi)), (1, second(rng, 2, -hi))])
+}
+
 pub fn adversarial(rng: &mut Rng, i: u64) -> T {
     let (x, y) = (rng.below(60) as u32, rng.below(3) as u32);
     let z = rng.below(3) as u32;
-    match i % 8 {
+    match i % 9 {
+        8 => double_decision(rng),
         0 => deep_chain(rng, 12 + x),
         1 => wide_infoset(rng, 2 + x % 14, 2 + y),
         2 => rare_chance(rng),
